@@ -61,6 +61,7 @@ type World struct {
 	nWrite int
 	lastDL int64 // FIFO: delivery time of the previous downlink message
 	lastUL int64
+	lastSent int64
 	closed bool // local Close called
 	down   bool // peer shut the association down (marker queued)
 	dialed bool
@@ -145,6 +146,13 @@ func (w *World) dlDelay(k int) int64 {
 	return w.S.Lat.DL[k%len(w.S.Lat.DL)]
 }
 
+func (w *World) procDelay(k int) int64 {
+	if len(w.S.Lat.Proc) == 0 {
+		return 0
+	}
+	return w.S.Lat.Proc[k%len(w.S.Lat.Proc)]
+}
+
 // Write is SCTPConn.Write: one NGAP message towards the core.
 func (w *World) Write(b []byte) (int, error) {
 	j := w.nWrite
@@ -194,7 +202,11 @@ func (w *World) enqueue(arrive int64, o core.Out) {
 	}
 	k := w.nDL
 	w.nDL++
-	sent := arrive
+	sent := arrive + w.procDelay(k)
+	if sent < w.lastSent {
+		sent = w.lastSent
+	}
+	w.lastSent = sent
 	at := sent + w.dlDelay(k)
 	if at < w.lastDL {
 		at = w.lastDL
